@@ -486,23 +486,25 @@ func (p *Project) WithSelectedServices(names []string, options ...DependencyOpti
 	}
 
 	// Disable all services which are not explicit target or dependencies
-	enabled := Services{}
-	for name, s := range newProject.Services {
-		if _, ok := set[name]; ok {
-			// remove all dependencies but those implied by explicitly selected services
-			dependencies := s.DependsOn
-			for d := range dependencies {
-				if _, ok := set[d]; !ok {
-					delete(dependencies, d)
-				}
-			}
-			s.DependsOn = dependencies
-			enabled[name] = s
-		} else {
-			newProject = newProject.WithServicesDisabled(name)
+	var unselected []string
+	for name := range newProject.Services {
+		if _, ok := set[name]; !ok {
+			unselected = append(unselected, name)
 		}
 	}
-	newProject.Services = enabled
+	sort.Strings(unselected)
+	newProject = newProject.WithServicesDisabled(unselected...)
+	for name, s := range newProject.Services {
+		// remove all dependencies but those implied by explicitly selected services
+		dependencies := s.DependsOn
+		for d := range dependencies {
+			if _, ok := set[d]; !ok {
+				delete(dependencies, d)
+			}
+		}
+		s.DependsOn = dependencies
+		newProject.Services[name] = s
+	}
 	return newProject, nil
 }
 
@@ -516,6 +518,13 @@ func (p *Project) WithServicesDisabled(names ...string) *Project {
 	if newProject.DisabledServices == nil {
 		newProject.DisabledServices = Services{}
 	}
+	// disabled services keep their definition as declared, whatever the order of names
+	for _, name := range names {
+		if service, ok := newProject.Services[name]; ok {
+			newProject.DisabledServices[name] = service
+			delete(newProject.Services, name)
+		}
+	}
 	for _, name := range names {
 		// We should remove all dependencies which reference the disabled service
 		for i, s := range newProject.Services {
@@ -523,10 +532,6 @@ func (p *Project) WithServicesDisabled(names ...string) *Project {
 				delete(s.DependsOn, name)
 				newProject.Services[i] = s
 			}
-		}
-		if service, ok := newProject.Services[name]; ok {
-			newProject.DisabledServices[name] = service
-			delete(newProject.Services, name)
 		}
 	}
 	return newProject
